@@ -1049,6 +1049,11 @@ int64_t ExpressionEvaluator::evaluate_function_call_impl(const ASTNode *node) {
                 TypeHelpers::isInterface(chain_ret.type) ||
                 chain_ret.is_struct) {
                 temp_receiver = chain_ret.struct_value;
+                // mk().m(): 関数・メソッドの戻り値は一時的なコピーで、
+                // return された変数が const でも const オブジェクトではない
+                if (node->left->node_type == ASTNodeType::AST_FUNC_CALL) {
+                    temp_receiver.is_const = false;
+                }
 
                 if (TypeHelpers::isInterface(temp_receiver.type)) {
                     bool has_struct_members =
